@@ -193,6 +193,10 @@ class C08(Property):
         ctx.nontrivial = ndrops >= 1 and (ndrops >= 2 or empty_member or has_none or spec["cls"].startswith("Perturbed") or spec["dim"] != 2)
         before, tbefore = records(obj, kind)
         path = self._path()
+        if not ctx_hash_even({"p": spec}):  # the file name as a pathlib.Path in half of the cases
+            import pathlib
+
+            path = pathlib.Path(path)
         # the file of the previous case is deliberately left in place: writing to an existing path must replace its content
         if os.path.exists(path) and ctx_hash_even(spec):
             os.remove(path)
